@@ -173,8 +173,8 @@ func casesEngines(c *caseCtx) {
 
 		// evaluations: total, finite, colour-blind
 		type ev struct {
-			name string
-			fn   func(*board.Board) eval.Pawns
+			name  string
+			fn    func(*board.Board) eval.Pawns
 			blind bool
 		}
 		points := &sargon.Points{}
